@@ -405,7 +405,7 @@ func (bs *blockState) inline(fn *ssa.Function, args []Val, bindings []Val, resTy
 		path = fr.callPath + "/" + path
 	}
 	nf := &Frame{ex: ex, fn: fn, contract: fr.contract, loopPfx: fn.Name() + ".", depth: fr.depth + 1,
-		vals: map[ssa.Value]Val{}, names: map[string]Val{}, cellNames: map[string]*Cell{}, entrySt: fr.entrySt, oldEnv: fr.oldEnv,
+		vals: map[ssa.Value]Val{}, names: map[string]Val{}, cellNames: map[string]*Cell{}, nilFlags: map[ssa.Value]Term{}, entrySt: fr.entrySt, oldEnv: fr.oldEnv,
 		callPath: path, callerStack: append(append([]*ssa.Function{}, fr.callerStack...), fr.fn)}
 	if len(args) != len(fn.Params) {
 		ex.unsup(pos, "argument count mismatch inlining %s", fn.Name())
@@ -643,11 +643,19 @@ func (bs *blockState) applySpec(c *Contract, display string, args []Val, rts []t
 			}
 		}
 	}
+	for _, w := range c.Witnesses {
+		post.Vars[w.Name] = ex.fresh("w_"+w.Name, w.Sort)
+	}
 	for _, e := range c.Ensures {
 		t, err := post.tr(e.E)
 		if err != nil || t.Sort != "Bool" {
 			ex.unsup(pos, "postcondition %s of %s: %v", e.Label, display, err)
 			continue
+		}
+		if e.OnSuccess {
+			if ev, ok := post.Vars["err"]; ok && ev.Sort == "Err" {
+				t = implies(eq(ev, Term{"NoErr", "Err"}), t)
+			}
 		}
 		ex.assume(bs.reach, t)
 	}
